@@ -18,9 +18,14 @@ Map-range sites of the compile path (extracted on every run by
   compiler/ssa/instructions.go init                  range operands         → `maxLen`
   compiler/ssa/set.go       Set.Copy/Subtract/Array  range set              → `setCopy`, `setSubtract`, `sortByKey`
   compiler/utils/params.go  SaveSymbolIDs            range p.SymbolIDs      → `sortByKey` (collect keys, sort.Strings)
-  compiler/ast/package.go   Package.Init             range pkg.Imports      → `initPkg`      (NOT order independent)
-  compiler/compiler.go      Compiler.parse           range pkg.Imports      → `parseImports` (order independent only if an alias names one path)
+  compiler/ast/package.go   Package.SortedImports    range pkg.Imports      → `sortedImports` (collect keys, sort.Strings)
   compiler/ssa/streamer.go  Program.Stream           range istats           → diagnostics table only
+
+`Package.Init` and `Compiler.parse` iterate `pkg.SortedImports()` since /repo
+6aa1568 (`initPkg`, `parseImports`); before, they ranged over the map itself
+(`initPkgOld`, `parseImportsOld`, kept for the refutations).  Since /repo
+1e863b8 every compilation starts from an empty package table (`compile`);
+before, parsed packages survived (`compileOld`).
 -/
 
 namespace Mpc.Det
@@ -89,7 +94,27 @@ def setCopy {υ : Type} (handed : List (Nat × υ)) : Nat → Option υ :=
 def setSubtract {υ : Type} (set : Nat → Option υ) (handedIds : List Nat) : Nat → Option υ :=
   handedIds.foldl (fun m i => fun k => if k = i then none else m k) set
 
-/-! ## 5. Package.Init -/
+/-! ## 5. Package.SortedImports, Package.Init -/
+
+/-- Insertion into a sorted list / insertion sort: structurally recursive, so
+that closed instances reduce in the kernel (`List.mergeSort` does not).  Which
+algorithm is irrelevant: sorted permutations are unique
+(`isort_perm_invariant`). -/
+def insertBy {α : Type} (le : α → α → Bool) (a : α) : List α → List α
+  | [] => [a]
+  | b :: bs => if le a b then a :: b :: bs else b :: insertBy le a bs
+
+def isort {α : Type} (le : α → α → Bool) : List α → List α
+  | [] => []
+  | a :: as => insertBy le a (isort le as)
+
+/-- compiler/ast/package.go `Package.SortedImports`:
+
+    for alias := range pkg.Imports { aliases = append(aliases, alias) }
+    sort.Strings(aliases)
+
+`le` is the order of `sort.Strings` (byte-wise for Go strings). -/
+def sortedImports {ν : Type} (le : ν → ν → Bool) (handed : List ν) : List ν := isort le handed
 
 /-- What Init needs to know of a package.  `imports` is `pkg.Imports` in the
 order the map hands the aliases over; `nvars` the number of package-level
@@ -117,11 +142,19 @@ structure GenSt (ν : Type) where
   anon : Nat
 deriving Repr, DecidableEq
 
-/-- compiler/ast/package.go `Package.Init`:
+/-- One package's own block, after its imports: `.name` with its variable
+definitions. -/
+def emitBlock {ν : Type} (pk : Pkg ν) (st : GenSt ν) : GenSt ν :=
+  if pk.nvars = 0 then st else
+  { st with
+    blocks := st.blocks ++ [(pk.name, if pk.nanon = 0 then none else some st.anon)],
+    anon := st.anon + pk.nanon }
+
+/-- compiler/ast/package.go `Package.Init` (since 6aa1568):
 
     if pkg.Initialized { return block }
     pkg.Initialized = true
-    for alias, name := range pkg.Imports { block = packages[alias].Init(...) }
+    for _, alias := range pkg.SortedImports() { block = packages[alias].Init(...) }
     ... constants, types ...
     block = gen.NextBlock(block); block.Name = "." + pkg.Name
     for _, def := range pkg.Variables { block = def.SSA(block) }
@@ -130,7 +163,7 @@ The flag is set before the imports are visited, so import cycles terminate;
 `fuel` (number of packages + 1 suffices) only makes the recursion structural.
 A missing package is an error in the Go code; the model leaves the state
 unchanged (callers pass closed libraries). -/
-def initPkg {ν : Type} [DecidableEq ν] : Nat → List (Pkg ν) → ν → GenSt ν → GenSt ν
+def initPkg {ν : Type} [DecidableEq ν] (le : ν → ν → Bool) : Nat → List (Pkg ν) → ν → GenSt ν → GenSt ν
   | 0, _, _, st => st
   | fuel + 1, lib, p, st =>
     if st.initialized.contains p then st else
@@ -138,18 +171,28 @@ def initPkg {ν : Type} [DecidableEq ν] : Nat → List (Pkg ν) → ν → GenS
     | none => st
     | some pk =>
       let st1 : GenSt ν := { st with initialized := p :: st.initialized }
-      let st2 := pk.imports.foldl (fun s q => initPkg fuel lib q s) st1
-      if pk.nvars = 0 then st2 else
-      { st2 with
-        blocks := st2.blocks ++ [(p, if pk.nanon = 0 then none else some st2.anon)],
-        anon := st2.anon + pk.nanon }
+      let st2 := (sortedImports le pk.imports).foldl (fun s q => initPkg le fuel lib q s) st1
+      emitBlock { pk with name := p } st2
+
+/-- `Package.Init` BEFORE 6aa1568: `for alias, name := range pkg.Imports` —
+the imports are visited in the order the map hands them over. -/
+def initPkgOld {ν : Type} [DecidableEq ν] : Nat → List (Pkg ν) → ν → GenSt ν → GenSt ν
+  | 0, _, _, st => st
+  | fuel + 1, lib, p, st =>
+    if st.initialized.contains p then st else
+    match getPkg lib p with
+    | none => st
+    | some pk =>
+      let st1 : GenSt ν := { st with initialized := p :: st.initialized }
+      let st2 := pk.imports.foldl (fun s q => initPkgOld fuel lib q s) st1
+      emitBlock { pk with name := p } st2
 
 /-! ## 6. State kept between compilations (Compiler.packages) -/
 
-/-- What survives a compilation inside `Compiler.packages`: the imported
-packages stay cached together with their `Initialized` flag and the
-`NumInstances` counters of their functions.  The `main` package is re-created
-by every `compile` (`ast.NewPackage("main", ...)`). -/
+/-- What is left in `Compiler.packages` after a compilation: the imported
+packages with their `Initialized` flag and the `NumInstances` counters of their
+functions.  The `main` package is re-created by every `compile`
+(`ast.NewPackage("main", ...)`). -/
 structure Cache (ν : Type) where
   initialized : List ν
   instances : ν → Nat
@@ -174,50 +217,68 @@ def labelCalls {ν : Type} [DecidableEq ν] (calls : List ν) (inst : ν → Nat
   calls.foldl (fun (acc : List (ν × Nat) × (ν → Nat)) f =>
     (acc.1 ++ [(f, acc.2 f)], fun g => if g = f then acc.2 g + 1 else acc.2 g)) ([], inst)
 
-/-- `Compiler.compile` as far as the cross-compilation state is concerned. -/
-def compile {ν : Type} [DecidableEq ν] (lib : List (Pkg ν)) (cache : Cache ν) (prog : Prog ν) :
-    Output ν × Cache ν :=
+/-- Parse + `Package.Compile` as far as the package state is concerned,
+starting from the package table `cache`; `init` is the Init in force. -/
+def compileFrom {ν : Type} [DecidableEq ν]
+    (init : Nat → List (Pkg ν) → ν → GenSt ν → GenSt ν)
+    (lib : List (Pkg ν)) (cache : Cache ν) (prog : Prog ν) : Output ν × Cache ν :=
   let mainName := prog.main.name
   let lib' := prog.main :: lib.filter (fun p => p.name ≠ mainName)
   let st0 : GenSt ν := { initialized := cache.initialized.filter (fun n => n ≠ mainName), blocks := [], anon := 0 }
-  let st := initPkg (lib'.length + 1) lib' mainName st0
+  let st := init (lib'.length + 1) lib' mainName st0
   let inst0 : ν → Nat := fun f => if prog.mainFuncs.contains f then 0 else cache.instances f
   let (labels, inst1) := labelCalls prog.calls inst0
   ({ initBlocks := st.blocks, funcLabels := labels },
    { initialized := st.initialized.filter (fun n => n ≠ mainName),
      instances := fun f => if prog.mainFuncs.contains f then 0 else inst1 f })
 
+/-- `Compiler.compile` / `CompileSSA` / `Stream` (since 1e863b8): the first
+statement is `c.resetPackages()`, i.e. whatever earlier compilations left in
+`c.packages` is dropped. -/
+def compile {ν : Type} [DecidableEq ν] (le : ν → ν → Bool) (lib : List (Pkg ν)) (_cache : Cache ν) (prog : Prog ν) :
+    Output ν × Cache ν :=
+  compileFrom (initPkg le) lib Cache.empty prog
+
+/-- `Compiler.compile` BEFORE 1e863b8 (and before 6aa1568): parsed packages
+survive in `c.packages`, Init ranges over the map. -/
+def compileOld {ν : Type} [DecidableEq ν] (lib : List (Pkg ν)) (cache : Cache ν) (prog : Prog ν) :
+    Output ν × Cache ν :=
+  compileFrom initPkgOld lib cache prog
+
 /-- `k` compilations of the same program on one `Compiler`. -/
-def compileRepeated {ν : Type} [DecidableEq ν] (lib : List (Pkg ν)) (prog : Prog ν) :
+def compileRepeated {ν : Type} [DecidableEq ν] (le : ν → ν → Bool) (lib : List (Pkg ν)) (prog : Prog ν) :
     Nat → Cache ν → List (Output ν)
   | 0, _ => []
   | k + 1, cache =>
-    let r := compile lib cache prog
-    r.1 :: compileRepeated lib prog k r.2
-
-/-- The proposed repair: `compile`/`CompileSSA`/`Stream` start from a fresh
-`packages` map (no parsed package survives a compilation). -/
-def compileFixed {ν : Type} [DecidableEq ν] (lib : List (Pkg ν)) (_cache : Cache ν) (prog : Prog ν) :
-    Output ν × Cache ν :=
-  ((compile lib Cache.empty prog).1, Cache.empty)
+    let r := compile le lib cache prog
+    r.1 :: compileRepeated le lib prog k r.2
 
 /-! ## 7. Compiler.parse / parsePkg: the package table is keyed by alias -/
 
-/-- compiler/compiler.go `parse` + `parsePkg`:
+/-- compiler/compiler.go `parse` + `parsePkg` (since 6aa1568):
 
     c.packages[pkg.Name] = pkg
-    for alias, name := range pkg.Imports { c.parsePkg(alias, name, source) }
+    for _, alias := range pkg.SortedImports() { c.parsePkg(alias, pkg.Imports[alias], source) }
 
     parsePkg: if pkg, ok := c.packages[alias]; ok { return pkg }   // keyed by ALIAS, not by path
 
 `files p` are the imports (alias, path) of the package at path `p` in
 hand-over order, `cache` the alias→path table built so far. -/
-def parseImports {α π : Type} [DecidableEq α] : Nat → (π → List (α × π)) → List (α × π) → List (α × π) → List (α × π)
+def parseImports {α π : Type} [DecidableEq α] (le : α → α → Bool) :
+    Nat → (π → List (α × π)) → List (α × π) → List (α × π) → List (α × π)
+  | 0, _, _, cache => cache
+  | fuel + 1, files, imports, cache =>
+    (isort (fun a b => le a.1 b.1) imports).foldl (fun c ap =>
+      if c.any (fun e => e.1 = ap.1) then c
+      else parseImports le fuel files (files ap.2) (c ++ [ap])) cache
+
+/-- `Compiler.parse` BEFORE 6aa1568: `for alias, name := range pkg.Imports`. -/
+def parseImportsOld {α π : Type} [DecidableEq α] : Nat → (π → List (α × π)) → List (α × π) → List (α × π) → List (α × π)
   | 0, _, _, cache => cache
   | fuel + 1, files, imports, cache =>
     imports.foldl (fun c ap =>
       if c.any (fun e => e.1 = ap.1) then c
-      else parseImports fuel files (files ap.2) (c ++ [ap])) cache
+      else parseImportsOld fuel files (files ap.2) (c ++ [ap])) cache
 
 /-- Which path an alias resolves to after parsing. -/
 def resolve {α π : Type} [DecidableEq α] (cache : List (α × π)) (a : α) : Option π :=
